@@ -81,6 +81,21 @@ func drawFmtBody(t *rapid.T, noisy bool, feat map[string]bool) (canon, noise []s
 		hasFlags = true
 		feat["flags"] = true
 	}
+	if chance(t, 10, "deep") {
+		// deep nesting right away: the indentation rule has no depth limit
+		k := drawInt(t, 4, 7, "deep-k")
+		for j := 0; j < k; j++ {
+			if chance(t, 70, "deep-asm") {
+				emit(ind()+"##!> assemble", lead()+"##!>"+gap()+"assemble"+trail())
+			} else {
+				emit(ind()+"##!> cmdline unix", lead()+"##!>"+gap()+"cmdline"+gap()+"unix"+trail())
+			}
+			depth++
+		}
+		e := drawEntry(t, false, "deep-e")
+		emit(ind()+e, lead()+e)
+		feat["deep-nesting"] = true
+	}
 	n := drawInt(t, 0, 10, "nlines")
 	for i := 0; i < n; i++ {
 		switch drawInt(t, 0, 15, "kind") {
@@ -113,8 +128,9 @@ func drawFmtBody(t *rapid.T, noisy bool, feat map[string]bool) (canon, noise []s
 			c := "##!> include " + inc
 			nn := lead() + "##!>" + gap() + "include" + gap() + inc
 			if chance(t, 40, "ipairs") {
-				c += " -- s t"
-				nn += gap() + "--" + gap() + "s t"
+				pr := pick(t, []string{"s t", "s t", "@ %20", "x %2e", `s ""`}, "ipairv")
+				c += " -- " + pr
+				nn += gap() + "--" + gap() + pr
 			}
 			emit(ind()+c, nn+trail())
 			feat["include"] = true
@@ -156,7 +172,12 @@ func drawFmtBody(t *rapid.T, noisy bool, feat map[string]bool) (canon, noise []s
 		case 10:
 			if depth > 0 {
 				c := pick(t, []string{"##!=>", "##!=< st1", "##!=> st1"}, "io")
-				emit(ind()+c, lead()+c)
+				// white space after a marker's name belongs to the line (the compiler reads it as part of the name); format keeps it
+				tr := ""
+				if c != "##!=>" {
+					tr = trail()
+				}
+				emit(ind()+c+tr, lead()+c+tr)
 				feat["io-marker"] = true
 				continue
 			}
@@ -180,6 +201,10 @@ func drawSoupLine(t *rapid.T) string {
 	n := drawInt(t, 0, 5, "soupn")
 	var sb strings.Builder
 	sb.WriteString(ws(t, "souplead", false))
+	if chance(t, 8, "soupexotic") {
+		// white space other than blank and tab is not indentation for the compiler
+		sb.WriteString(pick(t, []string{"\f", "\v", "\u00a0", "\u0085", "\r"}, "exotic"))
+	}
 	for i := 0; i < n; i++ {
 		sb.WriteString(pick(t, soupTokens, "souptok"))
 		if chance(t, 70, "soupsp") {
@@ -398,7 +423,8 @@ func stripLines(b []byte) []string {
 	var out []string
 	for _, l := range strings.Split(string(b), "\n") {
 		l = strings.Map(func(r rune) rune {
-			if r == ' ' || r == '\t' || r == '\r' || r == '\n' || r == '\v' || r == '\f' {
+			// white space in the sense of the tool: blanks, tabs and line terminators (a form feed or a no-break space is content to the compiler)
+			if r == ' ' || r == '\t' || r == '\r' || r == '\n' {
 				return -1
 			}
 			return r
